@@ -97,6 +97,7 @@ def main():
     ok &= bug("RngIso", "RngIso_quick.cfg", [("BugSharedInstance = FALSE", "BugSharedInstance = TRUE")], "Reproducible")
     ok &= bug("RngIso", "RngIso_quick.cfg", [("BugCloneShares = FALSE", "BugCloneShares = TRUE")], "Isolated")
     ok &= bug("RngIso", "RngIso_quick.cfg", [("BugShCoupled = FALSE", "BugShCoupled = TRUE")], "NoDeviateUsedTwice")
+    ok &= bug("RngIso", "RngIso_quick.cfg", [("BugRowsFromSeed = FALSE", "BugRowsFromSeed = TRUE")], "ObjectNeverReusesADeviate")
     ok &= bug("Purity", "Purity_quick.cfg", [("BugInPlace = FALSE", "BugInPlace = TRUE")], "ArgsUnchanged")
     ok &= bug("Purity", "Purity_quick.cfg", [("BugSharedResult = FALSE", "BugSharedResult = TRUE")], "NoHiddenState")
     ok &= bug("CovSched", "CovSched_quick.cfg", [("BugUnordered = FALSE", "BugUnordered = TRUE")], "SameAsSequential")
